@@ -253,3 +253,4 @@ theorem cacheInvW_soft {s s' : KState} (cfg : KConfig) (h : SoftRel s s') (hc : 
         rw [hr.2.2.2.1 hmf] at this; cases this
 
 end StepupModel.K.Discipline
+
